@@ -168,7 +168,13 @@ func VerifH_C13_banPeerOrder() {
 	// misbehaviour is judged (a queued response): the ban must be recorded all the same
 	gone := vpParam("departed", 1) == 1 && vpRange("peerAlreadyGone", 0, 1) == 1
 	if !gone {
-		state.outboundPeers[3] = sp
+		// an ordinary outbound peer or a persistent one (ConnectPeers / AddPeers)
+		if vpRange("persistentPeer", 0, 1) == 1 {
+			state.persistentPeers[3] = sp
+			vpReach("persistent-peer")
+		} else {
+			state.outboundPeers[3] = sp
+		}
 	}
 	quit := make(chan struct{})
 	go func() {
